@@ -142,6 +142,19 @@ def reformat_silent(pid: str, mod, repo: str) -> Tuple[bool, str]:
         shutil.rmtree(tmp, ignore_errors=True)
 
 
+def rename_silent(pid: str, mod, repo: str) -> Tuple[bool, str]:
+    """Rename every local variable of the package on a scratch copy: the verdict must not change."""
+    from .benign_gen import rename_locals_copy
+    tmp, total = rename_locals_copy(repo)
+    try:
+        code, viol, _ = run_property(pid, "thorough", tmp, mod.check, mod.EXPLANATION, mod.NOT_DECIDED, write_evidence=False, quiet=True)
+        return code == 0, f"{total} locals renamed; " + "; ".join(f"{v.rule}:{v.key[:80]}" for v in viol[:3])
+    except AnalysisError as e:
+        return False, f"analysis error: {e}"
+    finally:
+        shutil.rmtree(tmp, ignore_errors=True)
+
+
 def run_thorough(pid: str, mod, repo: str, write_evidence: bool = True) -> int:
     t0 = time.time()
     code, viol, ctx = run_property(pid, "thorough", repo, mod.check, mod.EXPLANATION, mod.NOT_DECIDED,
@@ -166,6 +179,8 @@ def run_thorough(pid: str, mod, repo: str, write_evidence: bool = True) -> int:
     # (c) reformat
     rf_ok, rf_detail = reformat_silent(pid, mod, repo) if code == 0 else (True, "skipped (violation present)")
     print(f"[{pid}] whole-package ast.unparse reformat leaves the verdict unchanged: {rf_ok} {rf_detail}")
+    rn_ok, rn_detail = rename_silent(pid, mod, repo) if code == 0 else (True, "skipped (violation present)")
+    print(f"[{pid}] renaming every local variable leaves the verdict unchanged: {rn_ok} {rn_detail}")
     wall = time.time() - t0
     if write_evidence:
         failing = [o for o in obs if not o.ok]
@@ -175,7 +190,7 @@ def run_thorough(pid: str, mod, repo: str, write_evidence: bool = True) -> int:
                                        "checker_selftest": {"mutants": n_mut, "caught": caught, "stale": stale,
                                                             "benign": n_ben, "benign_silent": ben_ok,
                                                             "missed": [r["id"] for r in st_res if r["kind"] == "mutant" and not r["ok"] and r["status"] != "stale"]},
-                                       "reformat_invariant": rf_ok})
+                                       "reformat_invariant": rf_ok, "rename_locals_invariant": rn_ok})
     if code == 0 and viol == [] and (not st_ok) and all(o.ok or True for o in obs):
         missed = [r["id"] for r in st_res if not r["ok"] and r["status"] != "stale"]
         # a self-test miss is a checker defect: report, but only fail the run when the tree itself is clean (otherwise the
@@ -184,5 +199,8 @@ def run_thorough(pid: str, mod, repo: str, write_evidence: bool = True) -> int:
         return 2
     if not rf_ok:
         print(f"ANALYSIS-ERROR property={pid}: verdict changes under reformatting ({rf_detail})")
+        return 2
+    if not rn_ok:
+        print(f"ANALYSIS-ERROR property={pid}: verdict changes when local variables are renamed ({rn_detail})")
         return 2
     return code
